@@ -88,6 +88,9 @@ class C05Spec(c01.C01Spec):
         s['max_subs'] = 80
         conf = cfg['conf']
         conf['connectionRetryTime'] = rng.choice([0, 0.5, 2.0])
+        # the fallback of a leader that hears no majority is part of "one stable leader": short values make it act
+        # within a run (a leader that has a majority in the quiet period must never fall back)
+        conf['leaderFallbackTimeout'] = rng.choice([30.0, 30.0, 2.0, 5.0, 10.0])
         if rng.random() < 0.35:
             # lagging followers that need a snapshot while every node compacts all the time: compaction of a node's own
             # log and the installation of a leader's snapshot meet in all orders (inline serializers finish in the next tick)
